@@ -36,7 +36,10 @@ def r1(ctx):
     # path - also the one that first converts a redb 2.x file), and nothing else builds a Store
     ens_rm = Ensures(f, r"migrations::run_migrations$")
     ctors = [p for p, b0 in f.bodies.items() if re.match(r"^store::fs::Store::(persistent|memory)$", p)]
-    if len(ctors) < 2:
+    if ctors == ["store::fs::Store::memory"] and ctx.cfg != "default":
+        # a configuration without the `fs-store` feature has no file-backed constructor: there is no older database to open
+        ctx.ok("C18.R1", "store::fs::Store", "no-file-backed-store-in-this-configuration", "only Store::memory exists in configuration `%s` (feature fs-store is off)" % ctx.cfg, None)
+    elif len(ctors) < 2:
         raise mir.AnchorMissing("expected the public constructors Store::persistent and Store::memory, found %s" % ctors)
     for p in sorted(ctors):
         if p.endswith("::memory"):
